@@ -240,7 +240,16 @@ impl Trio {
 
     /// Offers one coupon to all three sketches and runs the oracle.
     /// Returns the violations found (key, what) and the edges taken.
+    /// Offers one coupon to all three sketches and runs the oracle; a panic anywhere (update or
+    /// accessor) is itself a violation.
     pub fn offer(&mut self, c: u32, edges: &mut BTreeMap<String, u64>) -> Vec<(String, String)> {
+        match catch(|| self.offer_inner(c, edges)) {
+            Ok(v) => v,
+            Err(p) => vec![(format!("panic|{}", p.site_key()), format!("panicked while offering coupon {c:#x} / reading the state: {} at {}:{}", p.message, p.file, p.line))],
+        }
+    }
+
+    fn offer_inner(&mut self, c: u32, edges: &mut BTreeMap<String, u64>) -> Vec<(String, String)> {
         assert!(valid_coupon(c), "model precondition: coupon value in 1..=63");
         let mut out = vec![];
         let before: Vec<VerifHllState> = self.s.iter().map(|s| s.verif_state()).collect();
